@@ -3,6 +3,7 @@ import LLRP.Proofs.WriteSide
 import LLRP.Gen.Schema
 import LLRP.Gen.Consts
 import LLRP.Proofs.SeqNegotiate
+import LLRP.Proofs.SeqWriteLoop
 /-!
 # C06 — Version negotiation settles on min(client max, reader max) and sticks to it
 
@@ -323,5 +324,20 @@ example : ((run ((negotiate 2 (.ok 1 2) (.ok 0 0)).after 2) [.req 7 2 [0] 0 1 tr
 /-- and after settling on 1.0.1 both go out as 1.0.1 -/
 example : ((run ((negotiate 2 (.errorMsg 110) .lost).after 2) [.req 7 2 [0] 0 1 true, .ack 9]).out.drop 1).map (·.ver) = [1, 1] := by
   decide
+
+/-! ## the stamping rule at the level of the translated write loop
+
+`Gen.llrp_Client_handleOutgoing` is the go2seq translation of the write loop (regenerated from `reader.go` on every run);
+`SeqWrite.woEnv O` is an environment whose every choice (which `select` case proceeds, the ids in the ack queue, the
+requests in the send queue, failing writes, `c.ver()`, the timeout) is read from the oracle `O`, and which logs what the
+loop does; `SeqWrite.mrun` is the monitor over that log (`SeqWrite.mstep` states the rules). The theorem holds for every
+oracle and every number of iterations. -/
+
+/-- every header the translated write loop writes is stamped 1.1 when it is a negotiation message (GetSupportedVersion,
+SetProtocolVersion) and otherwise with the value `c.ver()` returned for that very message (`mstep`, case `hdr`,
+`stampOK`) — whatever the environment does -/
+theorem src_stamping (O : SeqWrite.Oracle) (fuel : Nat) (w' : SeqWrite.WW) (e : GoSeq.GoErr)
+    (h : Gen.llrp_Client_handleOutgoing (SeqWrite.woEnv O) fuel {} = some (w', e)) : (SeqWrite.mrun w'.log).ok = true :=
+  SeqWrite.src_write_loop_monitor O fuel w' e h
 
 end LLRP.C06
